@@ -180,7 +180,7 @@ def decode_one_nlri(afi, safi, data: bytes, addpath: bool, negotiated, action=No
     from exabgp.bgp.message.update.nlri.nlri import NLRI
 
     act = action if action is not None else (M.action if M.action is not None else Action.ANNOUNCE)
-    y, rest = NLRI.unpack_nlri(afi, safi, data, act, addpath, negotiated)
+    y, rest = NLRI.unpack_nlri(afi, safi, memoryview(bytes(data)), act, addpath, negotiated)  # a memoryview, as the UPDATE parser hands it over
     rest = bytes(rest)
     return y, bytes(data)[: len(data) - len(rest)], rest
 
@@ -290,7 +290,7 @@ def law_error(self) -> LawViolation:
 def decode_attr_tlv(flag, code, value, negotiated):
     from exabgp.bgp.message.update.attribute.attribute import Attribute
 
-    return Attribute.unpack(code, flag, value, negotiated)
+    return Attribute.unpack(code, flag, memoryview(bytes(value)), negotiated)  # memoryview slices, as AttributeCollection.parse passes them
 
 
 def decode_attr_collection(data: bytes, negotiated):
@@ -299,7 +299,7 @@ def decode_attr_collection(data: bytes, negotiated):
 
     AttributeCollection.previous = b''
     AttributeCollection.cached = None
-    return AttributeCollection.unpack(data, negotiated)
+    return AttributeCollection.unpack(memoryview(bytes(data)), negotiated)
 
 
 def decode_attr_any(b: bytes, code: int, negotiated):
